@@ -57,7 +57,9 @@ class GenCfg:
     recursive_refs: bool = True
     ap_schema_with_props: bool = False
     roots: bool = True  # non-object roots (root models)
-    boost: str = ""  # "allOf" / "union": make that construct frequent
+    boost: str = ""  # "allOf" / "union" / "disc": make that construct frequent
+    discriminators: bool = False  # OpenAPI `discriminator` on oneOf/anyOf of object definitions
+    allof_own_required: bool = True  # allOf-level `required` naming members declared inline (incl. renamed ones)
 
 
 def validator_for(doc: dict):
@@ -73,6 +75,7 @@ class DocGen:
         self.defs: dict[str, dict] = {}
         self.features: set[str] = set()
         self._names = 0
+        self.disc_targets: set[str] = set()  # definitions whose class the discriminator pass rewrites
 
     # -- scalars
     def integer(self, nullable: bool = False) -> dict:
@@ -260,7 +263,7 @@ class DocGen:
     def ref(self, depth: int) -> dict:
         r = self.rng
         self.features.add("ref")
-        existing = [k for k, v in self.defs.items() if v]
+        existing = [k for k, v in self.defs.items() if v and k not in self.disc_targets]
         if existing and r.chance(1, 2):
             return {"$ref": f"#/definitions/{r.choice(existing)}"}
         name = self.fresh_def(r.choice(DEF_NAMES))
@@ -325,6 +328,67 @@ class DocGen:
             alts.reverse()
         return {key: alts}
 
+    def disc_union(self, depth: int) -> dict:
+        """oneOf/anyOf over fresh object definitions + `discriminator`: explicit mapping (several keys may
+        select the same definition) or none (each definition is selected by its own name)"""
+        r = self.rng
+        self.features.add("discriminator")
+        prop = r.choice(["kind", "kind", "pet-type", "type", "class", "petType"])
+        n = r.range(2, 3)
+        names = [self.fresh_def(b) for b in r.sample(["Cat", "Dog", "Lizard", "Bird", "Fish"], n)]
+        self.disc_targets.update(names)
+        explicit = r.chance(2, 3)
+        pool = ["cat", "dog", "puppy", "lizard", "gecko", "bird", "fish", "kq", "zw", "big-one"]
+        keys = r.sample(pool, min(len(pool), 2 * n))
+        mapping: dict[str, str] = {}
+        tags: dict[str, list[str]] = {}
+        for i, nm in enumerate(names):
+            if explicit:
+                ks = [keys[2 * i]] + ([keys[2 * i + 1]] if r.chance(1, 2) else [])
+                if len(ks) > 1:
+                    self.features.add("discriminator_multikey")
+            else:
+                ks = [nm]
+            tags[nm] = ks
+        if explicit:
+            # mapping order is independent of the order of the alternatives
+            items = [(k, nm) for nm in names for k in tags[nm]]
+            if r.chance(1, 2):
+                items.reverse()
+            mapping = {k: f"#/definitions/{nm}" for k, nm in items}
+        else:
+            self.features.add("discriminator_implicit")
+        for i, nm in enumerate(names):
+            body = self.object_(depth + 1)
+            body["properties"].pop(prop, None)
+            mark = f"m{nm.lower()}"
+            body["properties"][mark] = self.scalar() if r.chance(1, 2) else {"type": "integer"}
+            how = r.below(6)
+            if how < 3:
+                tag_schema: dict | None = {"type": "string"}
+            elif how == 3:
+                tag_schema = {"type": "string", "enum": list(tags[nm])}
+            elif how == 4 and len(tags[nm]) == 1 and not self.cfg.draft4:
+                tag_schema = {"const": tags[nm][0]}
+            elif how == 5 and body.get("additionalProperties") is not False:
+                tag_schema = None  # not declared: the pass appends the member
+                self.features.add("discriminator_undeclared_tag")
+            else:
+                tag_schema = {"type": "string"}
+            if tag_schema is not None:
+                body["properties"] = {prop: tag_schema, **body["properties"]}
+            req = [x for x in body.get("required", []) if x in body["properties"] and x not in (prop, mark)]
+            body["required"] = ([prop] if tag_schema is not None else []) + [mark] + req
+            self.defs[nm] = body
+        key = r.choice(["oneOf", "anyOf"])
+        d: dict[str, Any] = {"propertyName": prop}
+        if explicit:
+            d["mapping"] = mapping
+        alts = [{"$ref": f"#/definitions/{nm}"} for nm in names]
+        if r.chance(1, 3):
+            alts.reverse()
+        return {key: alts, "discriminator": d}
+
     def all_of(self, depth: int) -> dict:
         r = self.rng
         self.features.add("allOf")
@@ -369,6 +433,19 @@ class DocGen:
             return self.all_of(depth)
         if self.cfg.boost == "union" and k < 4 and not deep and self.cfg.unions:
             return self.union(depth)
+        if self.cfg.discriminators and not deep and (k == 19 or (self.cfg.boost == "disc" and k < 5)):
+            u = self.disc_union(depth)
+            place = r.below(5)
+            if place == 0:
+                self.features.add("discriminator_in_array")
+                return {"type": "array", "items": u}
+            if place == 1:
+                # a definition that is the discriminated union itself (root model)
+                name = self.fresh_def("Pet")
+                self.defs[name] = u
+                self.features.add("discriminator_def")
+                return {"$ref": f"#/definitions/{name}"}
+            return u
         if k < 6:
             return self.scalar()
         if k < 8:
@@ -522,16 +599,171 @@ def _str_candidates(s: dict) -> list[str]:
     return out
 
 
+def disc_selection(s: dict) -> tuple[str, list[tuple[str, str]]]:
+    """(property name, [(tag value, "$ref" it selects)]) of a discriminated union node: the mapping as
+    written, or — without one — every alternative under its own schema name"""
+    d = s["discriminator"]
+    prop = d["propertyName"] if isinstance(d, dict) else d
+    alts = [a["$ref"] for a in (s.get("oneOf") or s.get("anyOf") or []) if isinstance(a, dict) and "$ref" in a]
+    mapping = d.get("mapping") if isinstance(d, dict) else None
+    if mapping:
+        tail = {a.rsplit("/", 1)[1]: a for a in alts}
+        sel = []
+        for k, r in mapping.items():
+            r2 = r if "/" in r else tail.get(r, r)
+            sel.append((k, tail.get(r2.rsplit("/", 1)[1], r2)))
+        return prop, sel
+    return prop, [(a.rsplit("/", 1)[1], a) for a in alts]
+
+
+def disc_ok(doc: dict, s: Any, v: Any, depth: int = 0) -> bool:
+    """What OpenAPI's `discriminator` adds to JSON-Schema validity (jsonschema ignores the keyword):
+    wherever a discriminated union applies, the value carries the tag, the tag selects one of the
+    alternatives and the value is valid under THAT alternative. Checked along the schema (members, items,
+    additionalProperties values, $ref, allOf parts, the alternative(s) of a plain union that match)."""
+    if depth > 12 or not isinstance(s, dict):
+        return True
+    if "$ref" in s:
+        return disc_ok(doc, resolve(doc, s), v, depth + 1)
+    if "discriminator" in s and ("oneOf" in s or "anyOf" in s):
+        prop, sel = disc_selection(s)
+        if not isinstance(v, dict) or not isinstance(v.get(prop), str):
+            return False
+        alts = {a["$ref"] for a in (s.get("oneOf") or s.get("anyOf")) if isinstance(a, dict) and "$ref" in a}
+        hit = [r for k, r in sel if k == v[prop]]
+        if not hit or hit[0] not in alts:
+            return False
+        return sub_validator(doc, {"$ref": hit[0]}).is_valid(v) and disc_ok(doc, {"$ref": hit[0]}, v, depth + 1)
+    for key in ("anyOf", "oneOf"):
+        if key in s:
+            ok = [a for a in s[key] if sub_validator(doc, a).is_valid(v)]
+            return any(disc_ok(doc, a, v, depth + 1) for a in ok) if ok else True
+    for part in s.get("allOf", []):
+        if not disc_ok(doc, part, v, depth + 1):
+            return False
+    if isinstance(v, dict):
+        props = s.get("properties") or {}
+        for k, x in v.items():
+            if k in props:
+                if not disc_ok(doc, props[k], x, depth + 1):
+                    return False
+            elif isinstance(s.get("additionalProperties"), dict) and not disc_ok(doc, s["additionalProperties"], x, depth + 1):
+                return False
+    if isinstance(v, list) and isinstance(s.get("items"), dict):
+        return all(disc_ok(doc, s["items"], x, depth + 1) for x in v)
+    return True
+
+
+def disc_const_tag(doc: dict) -> bool:
+    """a definition selected through a discriminator declares the tag property with `const`"""
+    found = False
+
+    def walk(s: Any) -> None:
+        nonlocal found
+        if isinstance(s, dict):
+            if "discriminator" in s and ("oneOf" in s or "anyOf" in s):
+                prop, sel = disc_selection(s)
+                for _, ref in sel:
+                    d = resolve(doc, {"$ref": ref})
+                    if isinstance(d, dict) and "const" in ((d.get("properties") or {}).get(prop) or {}):
+                        found = True
+            for v in s.values():
+                walk(v)
+        elif isinstance(s, list):
+            for v in s:
+                walk(v)
+
+    walk(doc)
+    return found
+
+
+def undeclared_members(doc: dict, s: Any, v: Any, depth: int = 0) -> set:
+    """how `additionalProperties` is written ("absent" / "true") at the objects of `v` that carry a member
+    their schema does not declare"""
+    out: set = set()
+    if depth > 10 or not isinstance(s, dict):
+        return out
+    s = resolve(doc, s)
+    alts = s.get("anyOf") or s.get("oneOf")
+    if alts:
+        for a in alts:
+            if sub_validator(doc, a).is_valid(v):
+                return undeclared_members(doc, a, v, depth + 1)
+        return out
+    if "allOf" in s:
+        s = merge_all_of(doc, s)
+    if isinstance(v, dict) and isinstance(s.get("properties"), dict):
+        ap = s.get("additionalProperties")
+        for k, x in v.items():
+            if k in s["properties"]:
+                out |= undeclared_members(doc, s["properties"][k], x, depth + 1)
+            elif ap is None or ap is True:
+                out.add("true" if ap is True else "absent")
+    elif isinstance(v, dict) and isinstance(s.get("additionalProperties"), dict):
+        for x in v.values():
+            out |= undeclared_members(doc, s["additionalProperties"], x, depth + 1)
+    if isinstance(v, list) and isinstance(s.get("items"), dict):
+        for x in v:
+            out |= undeclared_members(doc, s["items"], x, depth + 1)
+    return out
+
+
+def has_discriminator(doc: Any) -> bool:
+    if isinstance(doc, dict):
+        return "discriminator" in doc or any(has_discriminator(v) for v in doc.values())
+    if isinstance(doc, list):
+        return any(has_discriminator(v) for v in doc)
+    return False
+
+
+def is_valid(doc: dict, inst: Any) -> bool:
+    """validity under the document: jsonschema + the discriminator reading of OpenAPI"""
+    if not validator_for(doc).is_valid(inst):
+        return False
+    return disc_ok(doc, {k: x for k, x in doc.items() if k not in ("definitions", "title", "x-draft4")}, inst) if has_discriminator(doc) else True
+
+
+def disc_invalid_variants(doc: dict, inst: Any, limit: int = 4) -> list:
+    """instances that jsonschema accepts but the discriminator does not: an object standing in a
+    discriminated union with its tag replaced by a value outside the mapping, or by another branch's tag"""
+    out: list = []
+    body = {k: x for k, x in doc.items() if k not in ("definitions", "title", "x-draft4")}
+
+    def walk(s: Any, v: Any, path: list, depth: int = 0) -> None:
+        if depth > 8 or not isinstance(s, dict) or len(out) >= limit:
+            return
+        s = resolve(doc, s)
+        if "discriminator" in s and ("oneOf" in s or "anyOf" in s):
+            prop, sel = disc_selection(s)
+            if isinstance(v, dict) and isinstance(v.get(prop), str):
+                others = [k for k, _ in sel if k != v[prop]]
+                for t in ["zz_no_such_tag", *others[:1]]:
+                    out.append(_set_path(inst, [*path, prop], t))
+            return
+        if isinstance(v, dict):
+            for k, x in v.items():
+                ps = (s.get("properties") or {}).get(k)
+                if ps is not None:
+                    walk(ps, x, [*path, k], depth + 1)
+        if isinstance(v, list) and isinstance(s.get("items"), dict):
+            for i, x in enumerate(v[:1]):
+                walk(s["items"], x, [*path, i], depth + 1)
+
+    walk(body, inst, [])
+    return [x for x in out if not is_valid(doc, x)]
+
+
 def candidates(doc: dict, s: Any, depth: int = 0, budget: int = 3) -> list:
     """A few candidate values for schema `s` (first = the plainest), each valid under `s` according
-    to jsonschema."""
+    to jsonschema (and to the discriminators below `s`)."""
     if s is True or s == {}:
         return [1, "q"]
     cs = _candidates(doc, s, depth, budget)
     v = sub_validator(doc, s)
+    hd = has_discriminator(s) or has_discriminator(doc.get("definitions"))
     out = []
     for c in cs:
-        if v.is_valid(c) and not any(c == o and type(c) is type(o) for o in out):
+        if v.is_valid(c) and (not hd or disc_ok(doc, s, c)) and not any(c == o and type(c) is type(o) for o in out):
             out.append(c)
     return out
 
@@ -547,6 +779,16 @@ def _candidates(doc: dict, s: Any, depth: int = 0, budget: int = 3) -> list:
         return [s["const"]]
     if "enum" in s:
         return list(s["enum"])
+    if "discriminator" in s and ("anyOf" in s or "oneOf" in s):
+        # every mapping key (or implicit name) with an instance of the definition it selects
+        prop, sel = disc_selection(s)
+        per_ref = {ref: [c for c in candidates(doc, {"$ref": ref}, depth + 1, budget) if isinstance(c, dict)] for _, ref in sel}
+        out = []
+        for rank in (0, 1):  # first one instance per tag (EVERY tag), then a second one
+            for tag, ref in sel:
+                if len(per_ref[ref]) > rank:
+                    out.append({**per_ref[ref][rank], prop: tag})
+        return out
     if "anyOf" in s or "oneOf" in s:
         out = []
         for alt in s.get("anyOf") or s.get("oneOf"):
@@ -600,6 +842,13 @@ def _array_candidates(doc: dict, s: dict, depth: int, budget: int) -> list:
             arr = [copy.deepcopy(iv[i % len(iv)]) for i in range(n)]
         if arr not in out:
             out.append(arr)
+    if isinstance(items, dict) and has_discriminator(resolve(doc, items)):
+        # every tag of a discriminated item schema occurs in some array
+        n = max(lo, 1)
+        for j in range(1, len(iv)):
+            arr = [copy.deepcopy(iv[(j + i) % len(iv)]) for i in range(n)]
+            if arr not in out:
+                out.append(arr)
     return out
 
 
@@ -658,7 +907,8 @@ def _object_candidates(doc: dict, s: dict, depth: int, budget: int) -> list:
         out.append(minimal)
     # one member at a time through its other candidates (boundaries, nulls)
     for nm, vs in per.items():
-        for v in vs[1 : 1 + budget]:
+        wide = has_discriminator(resolve(doc, props[nm])) if isinstance(props[nm], dict) else False
+        for v in vs[1 : 1 + (max(budget, 8) if wide else budget)]:
             inst = copy.deepcopy(full)
             inst[nm] = copy.deepcopy(v)
             if inst not in out:
@@ -667,10 +917,9 @@ def _object_candidates(doc: dict, s: dict, depth: int, budget: int) -> list:
 
 
 def valid_instances(doc: dict, limit: int = 40) -> list:
-    v = validator_for(doc)
     out = []
     for c in candidates(doc, {k: x for k, x in doc.items() if k not in ("definitions", "title", "x-draft4")}):
-        if v.is_valid(c) and c not in out:
+        if is_valid(doc, c) and c not in out:
             out.append(c)
         if len(out) >= limit:
             break
